@@ -64,11 +64,27 @@ def c04(p):
         "nodata=np.int16(-9999)": lambda: W.whitsvc(nodata=np.int16(-9999), srange=sr),
         "p=None explicitly": lambda: W.whitsvc(nodata=-9999, srange=sr, p=None),
     })
+    c04_lc(p)
     sri = np.arange(-2.0, 3.0)
     spellings.explore(p, SUB, "whitsvc(nodata=-9999, srange=[-2..2], p=0.9)", lambda: W.whitsvc(nodata=-9999, srange=sri, p=0.9), {
         "srange int64": lambda: W.whitsvc(nodata=-9999, srange=np.arange(-2, 3), p=0.9),
         "srange float32": lambda: W.whitsvc(nodata=-9999, srange=sri.astype("float32"), p=0.9),
         "p=np.float64(0.9)": lambda: W.whitsvc(nodata=-9999, srange=sri, p=np.float64(0.9)),
+    })
+
+
+def c04_lc(p):
+    import xarray as xr
+    da = _cube()
+    W = da.hdc.whit
+    lc = xr.DataArray(np.array([[0.83, 0.12, np.nan], [0.5, 0.51, 0.9]]), dims=("y", "x"), coords={"y": da.y, "x": da.x})
+    spellings.explore(p, SUB, "whitsvc(nodata=-9999, lc=raster, p=0.9)", lambda: W.whitsvc(nodata=-9999, lc=lc, p=0.9), {
+        "srange given as well (the raster decides the grid)": lambda: W.whitsvc(nodata=-9999, lc=lc, srange=np.arange(-1.0, 2.5, 0.5), p=0.9),
+        "srange=None explicitly": lambda: W.whitsvc(nodata=-9999, lc=lc, srange=None, p=0.9),
+        "lc float32": lambda: W.whitsvc(nodata=-9999, lc=lc.astype("float32"), p=0.9),
+        "lc transposed (x, y)": lambda: W.whitsvc(nodata=-9999, lc=lc.transpose("x", "y"), p=0.9),
+        "lc without coordinates": lambda: W.whitsvc(nodata=-9999, lc=xr.DataArray(lc.values, dims=("y", "x")), p=0.9),
+        "p=np.float64(0.9)": lambda: W.whitsvc(nodata=-9999, lc=lc, p=np.float64(0.9)),
     })
 
 
@@ -84,6 +100,16 @@ def c05(p):
             "robust as np.bool_": lambda: W.whitswcv(nodata=-9999, srange=sr, robust=np.bool_(robust)),
             "p=None explicitly": lambda: W.whitswcv(nodata=-9999, srange=sr, robust=robust, p=None),
         })
+    # the placeholder given as argument is 0 while the object carries another (stale) nodata attribute
+    da0 = da.where(da != -9999, 0).astype("int16")
+    for kw in ({"robust": False}, {"robust": True}, {"robust": False, "p": 0.9}):
+        spellings.explore(p, SUB, f"whitswcv(nodata=0, srange, {kw}) on an object without nodata attribute",
+                          lambda: da0.assign_attrs({}).hdc.whit.whitswcv(nodata=0, srange=sr, **kw), {
+                              "the object carries attrs nodata=-9999": lambda: da0.assign_attrs(nodata=-9999).hdc.whit.whitswcv(nodata=0, srange=sr, **kw).map(lambda v: v.assign_attrs({})).assign_attrs({}),
+                              "the object carries attrs nodata=7": lambda: da0.assign_attrs(nodata=7).hdc.whit.whitswcv(nodata=0, srange=sr, **kw).map(lambda v: v.assign_attrs({})).assign_attrs({}),
+                              "nodata=0.0": lambda: da0.assign_attrs({}).hdc.whit.whitswcv(nodata=0.0, srange=sr, **kw),
+                              "nodata=np.int16(0)": lambda: da0.assign_attrs({}).hdc.whit.whitswcv(nodata=np.int16(0), srange=sr, **kw),
+                          })
     spellings.explore(p, SUB, "whitswcv(nodata=-9999) [default grid]", lambda: W.whitswcv(nodata=-9999), {
         "srange=None explicitly": lambda: W.whitswcv(nodata=-9999, srange=None),
         "the default grid passed explicitly": lambda: W.whitswcv(nodata=-9999, srange=np.arange(-1.8, 4.2, 0.2)),
